@@ -81,7 +81,7 @@ def gen_program(rng: Any) -> dict[str, Any]:
     return {"backend": rng.choice(["asyncio", "trio"]), "sched_seed": rng.randrange(1 << 30), "shuffle": rng.random() < 0.5,
             "n_instances": n_inst, "n_signals": n_sig, "tasks": tasks,
             # owner instances that all compare (and hash) equal, like value objects / frozen dataclasses
-            "equal_owners": rng.random() < 0.3, "copied_owners": rng.random() < 0.25, "falsy_owners": rng.random() < 0.2}
+            "equal_owners": rng.random() < 0.3, "copied_owners": rng.random() < 0.25, "falsy_owners": rng.random() < 0.2, "dataclass_events": rng.random() < 0.25}
 
 
 # --------------------------------------------------------------------------- interpretation
@@ -269,6 +269,16 @@ class Run:
 
             def __init__(self, n: int) -> None:
                 self.n = n
+
+        if prog.get("dataclass_events"):
+            # events declared as dataclasses (as in the user guide): they compare by value - here every event equals every other -
+            # and are unhashable; each dispatched object is still an event of its own
+            from dataclasses import dataclass, field
+
+            @dataclass
+            class Ev(Event):  # type: ignore[no-redef]  # noqa: F811
+                n: int = field(compare=False)
+                kind: str = "same"
 
         self.Ev = Ev
         ns: dict[str, Any] = {f"s{j}": Signal(Ev) for j in range(prog["n_signals"])}
@@ -514,6 +524,8 @@ def check(run: Run) -> tuple[list[dict[str, Any]], dict[str, int]]:
         inc("histories_with_a_copied_owner")
     if prog.get("falsy_owners"):
         inc("histories_with_falsy_owners")
+    if prog.get("dataclass_events"):
+        inc("histories_with_value_equal_unhashable_events")
     if active_subs >= 2:
         inc("histories_with_2plus_subscribers")
     if any(t["kind"] == "subscriber" and t["style"]["kind"] == "abandon" for t in prog["tasks"]):
